@@ -285,7 +285,10 @@ def real_libm(ex, st, name, args):
             if rn * rn == n and rd * rd == dd:
                 return Fraction(rn, rd)
         az = q(a)
-        if ex.decide(st, az < 0):
+        if getattr(ex, 'sqrt_no_fork', False):
+            # the square root is only defined for a non-negative argument: this path assumes it (like div_no_fork)
+            st.add(az >= 0)
+        elif ex.decide(st, az < 0):
             st.event('sqrt-negative', where=ex.where(st))
             return math.nan
         r = ex.leaf(st, 'sqrt', [az])
